@@ -109,6 +109,28 @@ pub fn plan_c15(tier: &str, seed: u64) -> Plan {
         let f = random_formula(&mut rng, 4, &atoms);
         lines.push(format!("parse x{}", h(&f)));
     }
+    // long expressions with multi-byte names, well formed and malformed (every error path, with the names shifted
+    // byte by byte so that any fixed byte offset falls inside a multi-byte character for some of them)
+    let long_names = ["Département::Ingénierie", "Sécurité::Très Secret Défense", "日本語::東京都千代田区", "Ünïcödé Dîm::Ättrïbütë №1", "ασφάλεια::άκρως απόρρητο"];
+    let templates = ["&& {X}", "|| {X}", "{X} &&& {Y}", "{X} | {Y}", "({X}", "{X})", "(({X}) && ({Y}", "{X} && ({Y} || ", "{X} & {Y}", "){X}(",
+        "{X} && ", "{X} || ", "({X} || {Y}) && {X}::z", "{X} && {Y}", "({X} || {Y}) && {X}", "{X}{Y}", "{X} ({Y}", "(({X})) || (({Y})", "{X} && ({Y} && ({X} || ({Y})",
+        "{X} || || {Y}", "{X} && && {Y}", "({X} && {Y}))", "{X} :: {Y}", "::{X}", "{X}::", "(&& {X})", "(|| {X})", "{X} && (|| {Y})"];
+    let pads = ["", "a", "ab", "abc", "abcd::e && ", "é", "(é::é) && ", "x::y || "];
+    let nl = if tier == "thorough" { usize::MAX } else { 1 };
+    for (ti, t) in templates.iter().enumerate() {
+        for (xi, x) in long_names.iter().enumerate() {
+            for (pi, pad) in pads.iter().enumerate() {
+                if nl == 1 && (ti + xi + pi) % 3 != 0 {
+                    continue;
+                }
+                let y = long_names[(xi + 1 + pi) % long_names.len()];
+                let e = format!("{pad}{}", t.replace("{X}", x).replace("{Y}", y));
+                lines.push(format!("parse x{}", h(&e)));
+                // nested once more: errors are re-reported by the enclosing group
+                lines.push(format!("parse x{}", h(&format!("{pad}(z::z || ({e})) && {y}"))));
+            }
+        }
+    }
     // the documented grammar with its intended meaning: specification oracle on the implementation
     let mut expect = vec![];
     let ng = if tier == "thorough" { 20000 } else { 3000 };
@@ -121,7 +143,7 @@ pub fn plan_c15(tier: &str, seed: u64) -> Plan {
         per_line: true,
         cases: vec![Case { expect, name: format!("c15-exhaustive-len{n}+formulas"), lines }],
         exhaustive: true,
-        rule: format!("every string over {{A,é,:,&,|,(,),space,*,U+00A0}} of length <= {n} (exhaustive), the documented examples and targeted non-ASCII shapes, {nf} random printed strings (random spacing, redundant parentheses, juxtaposition) and {ng} formulas of the documented grammar (AND before OR, parentheses, && or juxtaposition, Unicode spacing, multi-byte and spaced names) whose parsed policy and DNF are compared with the intended formula under all 64 assignments, on the implementation (specification oracle) and on the model; a case is one string; parse result (AST and DNF, or error) of the implementation is compared with the Lean model; distinct = distinct (input, outcome) pairs"),
+        rule: format!("every string over {{A,é,:,&,|,(,),space,*,U+00A0}} of length <= {n} (exhaustive), the documented examples and targeted non-ASCII shapes, long well-formed and malformed expressions with multi-byte names (28 templates covering every error path x 5 names x 8 byte shifts, each also nested in a group), {nf} random printed strings (random spacing, redundant parentheses, juxtaposition) and {ng} formulas of the documented grammar (AND before OR, parentheses, && or juxtaposition, Unicode spacing, multi-byte and spaced names) whose parsed policy and DNF are compared with the intended formula under all 64 assignments, on the implementation (specification oracle) and on the model; a case is one string; parse result (AST and DNF, or error) of the implementation is compared with the Lean model; distinct = distinct (input, outcome) pairs"),
     }
 }
 
@@ -696,7 +718,7 @@ pub fn plan_c08(tier: &str, seed: u64) -> Plan {
                 format!("reflavour {a}"), format!("reflavour 0"), format!("reflavour 1"), format!("reflavour 2"),
                 "strip_sig".into(), format!("flip_sig {}", rng.below(32)), format!("flip_id {}", rng.below(31)), "swap_id".into(),
                 format!("splice_chain U{v} {a}"), format!("splice_chain U{v} 0"), format!("splice_sig U{v}"), format!("splice_id U{v}"),
-                "foreign".into(),
+                "foreign".into(), "sibling".into(),
             ];
             for op in ops {
                 c.lines.push(format!("c08 U{u} {op}"));
@@ -710,6 +732,6 @@ pub fn plan_c08(tier: &str, seed: u64) -> Plan {
         per_line: true,
         cases,
         exhaustive: false,
-        rule: format!("{n_cases} random small histories (keys for 5 policies incl. '*', 0..3 rekeys each followed by a refresh with keep: single and multiple rights, 1..4 revisions, classic and hybridised secrets); on every key version 41 tampering operators on the serialised form (reorder / drop / duplicate / rename rights, move / swap / drop secrets, shift bytes between a right's name and its secret, merge a chain into a name, merge the broadcast chain into its neighbour, flavour change with re-chunking, strip / flip / splice signature, flip / swap / splice id, splice a chain of another issued key, key of another authority) plus the untouched control; the real refresh_usk (both flags, on copies) is compared with the Lean byte-level MAC model and with the specification (only the issued key is accepted; nothing modified on rejection)"),
+        rule: format!("{n_cases} random small histories (keys for 5 policies incl. '*', 0..3 rekeys each followed by a refresh with keep: single and multiple rights, 1..4 revisions, classic and hybridised secrets); on every key version 42 tampering operators on the serialised form (reorder / drop / duplicate / rename rights, move / swap / drop secrets, shift bytes between a right's name and its secret, merge a chain into a name, merge the broadcast chain into its neighbour, flavour change with re-chunking, strip / flip / splice signature, flip / swap / splice id, splice a chain of another issued key, key of another authority, key issued by a replica of this master key) plus the untouched control; the real refresh_usk (both flags, on copies) is compared with the Lean byte-level MAC model and with the specification (only the issued key is accepted; nothing modified on rejection)"),
     }
 }
